@@ -46,9 +46,12 @@ class Cellspec:
         elif kind == "lateral":
             self.F, self.N, self.L, self.in_bits, self.out_bits = n_in, n_in, 1, n_in, n_in
             self.wshape = (n_in, n_in)
-        elif kind == "conv":  # 1 channel, 1x3 input, kernel (1,2) -> 2 positions; n_out filters
-            self.F, self.N, self.L, self.in_bits, self.out_bits = n_out, 2, 2, 3, n_out * 2
-            self.wshape = (n_out, 1, 1, 2)
+        elif kind in ("conv", "conv2c"):
+            # conv: 1 channel, 1x3 input, kernel (1,2) -> 2 positions; conv2c: 2 channels, 1x2 input, kernel (1,2) -> 1 position
+            # (the receptive axis then mixes channel and kernel column: (c kh kw) order matters); n_out filters
+            self.C, self.W = (1, 3) if kind == "conv" else (2, 2)
+            self.F, self.N, self.L, self.in_bits, self.out_bits = n_out, self.C * 2, self.W - 1, self.C * self.W, n_out * (self.W - 1)
+            self.wshape = (n_out, self.C, 1, 2)
         else:
             raise ValueError(kind)
 
@@ -71,8 +74,8 @@ class Cellspec:
             conn = LinearLateral((self.n_in,), dt, **kw)
             nshape = (self.n_in,)
         else:
-            conn = Conv2D(1, 3, 1, self.n_out, dt, (1, 2), **kw)
-            nshape = (self.n_out, 1, 2)
+            conn = Conv2D(1, self.W, self.C, self.n_out, dt, (1, 2), **kw)
+            nshape = (self.n_out, 1, self.L)
         conn.updater = conn.defaultupdater()
         neuron = ExactNeuron(nshape, dt, rest_v=-60.0, thresh_v=-45.0, batch_size=B)
         layer = Serial(conn, neuron)
@@ -82,27 +85,28 @@ class Cellspec:
     def pre_tensor(self, bits):
         """bits: (B, in_bits) 0/1 -> connection input"""
         x = torch.tensor(bits, dtype=torch.bool)
-        if self.kind == "conv":
-            return x.reshape(-1, 1, 1, 3)
+        if self.kind in ("conv", "conv2c"):
+            return x.reshape(-1, self.C, 1, self.W)
         return x
 
     def post_tensor(self, bits):
         x = torch.tensor(bits, dtype=torch.bool)
-        if self.kind == "conv":
-            return x.reshape(-1, self.n_out, 1, 2)
+        if self.kind in ("conv", "conv2c"):
+            return x.reshape(-1, self.n_out, 1, self.L)
         return x
 
     def pre_syn(self, bits):
         """(B, in_bits) -> (B, N, L) bool in the reference space"""
         x = torch.tensor(bits, dtype=torch.bool)
-        if self.kind == "conv":
-            return torch.stack([x[:, 0:2], x[:, 1:3]], 1)  # n = kernel column, l = position: x[l + n]
+        if self.kind in ("conv", "conv2c"):
+            xc = x.reshape(-1, self.C, self.W)  # n = (channel, kernel column) channel-major, l = position: x[c, l + kw]
+            return torch.stack([xc[:, c, kw:kw + self.L] for c in range(self.C) for kw in range(2)], 1)
         return x.unsqueeze(-1)
 
     def post_ref(self, bits):
         x = torch.tensor(bits, dtype=torch.bool)
-        if self.kind == "conv":
-            return x.reshape(-1, self.n_out, 2)
+        if self.kind in ("conv", "conv2c"):
+            return x.reshape(-1, self.n_out, self.L)
         return x.unsqueeze(-1)
 
     def delays_to_K(self, delays, dt):
@@ -112,7 +116,7 @@ class Cellspec:
         d = delays.to(F64) / dt
         if self.kind == "direct":
             return torch.diag(d) + torch.zeros(self.F, self.N, dtype=F64)
-        if self.kind == "conv":
+        if self.kind in ("conv", "conv2c"):
             return d.reshape(self.F, self.N)
         return d
 
@@ -120,7 +124,7 @@ class Cellspec:
         """(…, F, N) reference tensor -> (…, *wshape)"""
         if self.kind == "direct":
             return torch.diagonal(fn, dim1=-2, dim2=-1)
-        if self.kind == "conv":
+        if self.kind in ("conv", "conv2c"):
             return fn.reshape(*fn.shape[:-2], *self.wshape)
         return fn
 
